@@ -23,7 +23,9 @@ def run(tier, seed):
     res = {"violations": [], "broken": [], "coverage": {}}
     specs = [("mu_mix", {}, 1500, 30000), ("cv_mix", {"VRT_MODE": 0}, 1000, 20000), ("cv_mix", {"VRT_MODE": 1}, 700, 15000),
              ("cv_mix", {"VRT_MODE": 2}, 700, 15000), ("once_mix", {}, 1000, 20000), ("counter_mix", {}, 1000, 20000),
-             ("note_mix", {}, 1200, 20000), ("waitn_mix", {}, 1200, 20000), ("muwait_mix", {}, 1200, 20000), ("muwait_mix", {"VRT_MODE": 0, "VRT_FINE": 600}, 2000, 40000), ("mu_mix", {"VRT_PLAINPM": 40}, 800, 15000), ("cv_mix", {"VRT_PLAINPM": 40}, 800, 15000)]
+             ("note_mix", {}, 1200, 20000), ("note_mix", {"VRT_FAMILY": 4}, 600, 10000), ("waitn_mix", {}, 1200, 20000), ("waitn_mix", {"VRT_KIND": 0}, 500, 10000), ("waitn_mix", {"VRT_KIND": 1}, 500, 10000), ("muwait_mix", {}, 1200, 20000), ("muwait_mix", {"VRT_MODE": 0, "VRT_FINE": 600}, 2000, 40000), ("mu_mix", {"VRT_PLAINPM": 40}, 800, 15000), ("cv_mix", {"VRT_PLAINPM": 40}, 800, 15000),
+             ("cv_mix", {"VRT_MODE": 3}, 700, 15000), ("cv_mix", {"VRT_MODE": 4}, 700, 15000), ("cv_mix", {"VRT_MODE": 5}, 700, 15000),
+             ("cv_mix", {"VRT_MODE": 6}, 1000, 20000), ("cv_mix", {"VRT_MODE": 6, "VRT_PLAINPM": 40}, 600, 12000), ("cancel_mix", {}, 1000, 20000)]
     cov = scen_common.run_scenarios(res, specs, tier, seed, {"RACE"}, label_nontrivial="plain")
     cov["rule"] = ("all scenario families run with the runtime's happens-before detector on: client data touched inside critical sections, "
                    "once-function effects, note/counter/cv hand-offs and nsync's own non-atomic fields; happens-before is computed only from "
